@@ -268,51 +268,71 @@ theorem pre_readN (n : Nat) : Pre (decide (0 < n)) PS (fun b => readN b n) := by
   · simp only [hn, decide_false, Bool.false_eq_true, if_false] at h
     split at h <;> cases h
 
-/-- class of `readUvarintGo.go` started at byte index `i` -/
-theorem go_pre : ∀ (b : Bytes) (i x s : Nat) (v : Nat) (r : Bytes), readUvarintGo.go b i x s = .ok (v, r) →
-    ∃ y, b = y ++ r ∧ y ≠ [] ∧ (∀ r', readUvarintGo.go (y ++ r') i x s = .ok (v, r')) ∧
+/-- class of `readUvarintGo.go` started at byte index `i ≤ 10`. A successful read ends at index ≤ 10
+(`i + y.length ≤ 10`), so on a proper prefix the end of input is met at an index < 10, before the MaxVarintLen64 test
+can fire: the class is EOF, never `"overflow"`. -/
+theorem go_pre : ∀ (b : Bytes) (i x s : Nat) (v : Nat) (r : Bytes), i ≤ 10 → readUvarintGo.go b i x s = .ok (v, r) →
+    ∃ y, b = y ++ r ∧ y ≠ [] ∧ i + y.length ≤ 10 ∧ (∀ r', readUvarintGo.go (y ++ r') i x s = .ok (v, r')) ∧
       ∀ k, k < y.length →
         readUvarintGo.go (y.take k) i x s = .err (if k = 0 ∧ i = 0 then "eof" else "unexpectedEof") := by
   intro b
   induction b with
-  | nil => intro i x s v r h; simp only [readUvarintGo.go] at h; split at h <;> cases h
+  | nil =>
+    intro i x s v r _ h
+    simp only [readUvarintGo.go] at h
+    split at h
+    · cases h
+    · split at h <;> cases h
   | cons c rest ih =>
-    intro i x s v r h
+    intro i x s v r hi h
     simp only [readUvarintGo.go] at h
     by_cases h10 : (i == 10) = true
     · simp [h10] at h
     · simp only [h10, Bool.false_eq_true, if_false] at h
+      have hi9 : i ≤ 9 := by
+        have : i ≠ 10 := by simpa using h10
+        omega
+      have hnil : readUvarintGo.go [] i x s = .err (if i = 0 then "eof" else "unexpectedEof") := by
+        simp only [readUvarintGo.go, h10, Bool.false_eq_true, if_false]
+        by_cases hi0 : i = 0 <;> simp [hi0]
       by_cases hc : c.toNat < 128
       · simp only [hc, if_true] at h
         by_cases h9 : (i == 9) = true ∧ c.toNat > 1
         · simp [h9] at h
         · simp only [h9, if_false, Res.ok.injEq, Prod.mk.injEq] at h
           obtain ⟨rfl, rfl⟩ := h
-          refine ⟨[c], rfl, by simp, fun r' => ?_, fun k hk => ?_⟩
+          refine ⟨[c], rfl, by simp, by simp; omega, fun r' => ?_, fun k hk => ?_⟩
           · simp only [List.cons_append, List.nil_append, readUvarintGo.go, h10, Bool.false_eq_true, if_false, hc,
               if_true, h9]
           · have : k = 0 := by simp at hk; omega
             subst this
-            simp only [List.take_zero, readUvarintGo.go, true_and]
-            by_cases hi : i = 0 <;> simp [hi]
+            simp only [List.take_zero, true_and]
+            exact hnil
       · simp only [hc, if_false] at h
-        obtain ⟨y, e1, e2, e3, e4⟩ := ih _ _ _ v r h
-        refine ⟨c :: y, by rw [e1]; rfl, by simp, fun r' => ?_, fun k hk => ?_⟩
+        obtain ⟨y, e1, e2, e2', e3, e4⟩ := ih _ _ _ v r (by omega) h
+        refine ⟨c :: y, by rw [e1]; rfl, by simp, by simp; omega, fun r' => ?_, fun k hk => ?_⟩
         · simp only [List.cons_append, readUvarintGo.go, h10, Bool.false_eq_true, if_false, hc]
           exact e3 r'
         · cases k with
           | zero =>
-            simp only [List.take_zero, readUvarintGo.go, true_and]
-            by_cases hi : i = 0 <;> simp [hi]
+            simp only [List.take_zero, true_and]
+            exact hnil
           | succ k =>
             simp only [List.take_succ_cons, readUvarintGo.go, h10, Bool.false_eq_true, if_false, hc]
             rw [e4 k (by simpa using hk)]
             simp
 
+/-- a successful `ReadUvarint` consumes at most ten bytes (MaxVarintLen64) -/
+theorem readUvarint_le_ten {b : Bytes} {v : Nat} {r : Bytes} (h : readUvarintGo b = .ok (v, r)) :
+    b.length ≤ r.length + 10 := by
+  unfold readUvarintGo at h
+  obtain ⟨y, e1, _, e2, _⟩ := go_pre b 0 0 0 v r (by omega) h
+  rw [e1]; simp; omega
+
 theorem pre_readUvarint : Pre true PS readUvarintGo := by
   intro b v r h
   unfold readUvarintGo at h
-  obtain ⟨y, e1, e2, e3, e4⟩ := go_pre b 0 0 0 v r h
+  obtain ⟨y, e1, e2, _, e3, e4⟩ := go_pre b 0 0 0 v r (by omega) h
   refine ⟨y, e1, fun _ => e2, fun r' => by unfold readUvarintGo; exact e3 r', fun k hk => ?_⟩
   refine ⟨_, by unfold readUvarintGo; exact e4 k hk, ?_⟩
   unfold PS; simp
